@@ -17,15 +17,15 @@ import (
 
 // ---------- reference ignore matcher (restricted rule alphabet) ----------
 //
-// Rule forms handled: literal characters, '*' (any run of non-'/' characters),
-// '?' (exactly one non-'/' character), an optional leading '/' (anchored at the
+// Rule forms handled: literal characters, '\c' (the literal character c), '*'
+// (any run of non-'/' characters), '?' (exactly one non-'/' character), an optional leading '/' (anchored at the
 // chart root), an optional trailing '/' (directories only), '#...' and blank
 // lines (no rule). Semantics as documented in pkg/ignore/doc.go: a pattern
 // without '/' is tested against the base name, a pattern with '/' against the
 // whole relative path; an ignored directory excludes everything below it.
 // The features combine: "/docs/" is anchored AND directory-only (the root
 // docs directory and everything below it, not sub/docs), "/sub/*.tmp" and
-// "/a?c" are anchored globs. No negation, no character classes, no escapes.
+// "/a?c" are anchored globs. No negation, no character classes.
 
 // glob matches pattern against s; neither '*' nor '?' matches '/'.
 func glob(pat, s []rune) bool {
@@ -44,6 +44,11 @@ func glob(pat, s []rune) bool {
 		}
 	case '?':
 		return len(s) > 0 && s[0] != '/' && glob(pat[1:], s[1:])
+	case '\\':
+		if len(pat) < 2 {
+			return false // a lone trailing backslash is malformed (not generated)
+		}
+		return len(s) > 0 && s[0] == pat[1] && glob(pat[2:], s[1:])
 	}
 	return len(s) > 0 && s[0] == pat[0] && glob(pat[1:], s[1:])
 }
